@@ -83,6 +83,22 @@ def _subst(obj):
     return obj
 
 
+def _cfg_size(cfg):
+    from vf.ref import c02_geom as G
+    best = 1
+    for key in ("dom", "tgt", "ddom", "fdom", "md"):
+        v = cfg.get(key)
+        if isinstance(v, list) and v and isinstance(v[0], str):
+            v = [v]                      # a single space spec
+        if isinstance(v, list):
+            best = max(best, int(np.prod(G.tuple_shape(v), dtype=int)))
+        elif isinstance(v, dict):
+            best = max(best, sum(int(np.prod(G.tuple_shape(x), dtype=int)) for x in v.values()))
+    if isinstance(cfg.get("dom"), list) and isinstance(cfg.get("fdom"), list):
+        best = int(np.prod(G.tuple_shape(cfg["dom"]) + G.tuple_shape(cfg["fdom"]), dtype=int))
+    return best
+
+
 def cases(tier, seed):
     import json
     from vf.ref import c02_ops as O
@@ -95,7 +111,7 @@ def cases(tier, seed):
             for c in list(cfgs):
                 c2 = _subst(c)
                 k = json.dumps(c2, sort_keys=True)
-                if k not in seen:
+                if k not in seen and _cfg_size(c2) <= 64:     # the pair checks are quadratic in the number of pixels
                     seen.add(k)
                     cfgs.append(c2)
         for k, cfg in enumerate(cfgs):
